@@ -363,6 +363,9 @@ class Tokenizer:
                     # other case citation. See #221 and #174
                     citation_tokens.pop(-1)
                     all_tokens.pop(-1)
+                    # the text covered by the discarded token is plain text
+                    # again, so resume from where that token started
+                    offset = last_token.start
                 else:
                     # skip overlaps
                     continue
